@@ -359,7 +359,7 @@ Definition scalars_get_value (x : ctx) (name : string) : pres scalar_ref :=
   | inl None, _ => PErr (ECatch (CVariableWasNotInitializedAfterNew name))
   | inl (Some a), None => POk (SRValue a)
   | inr _, Some f => POk (SRIterable f)
-  | inl (Some _), Some _ => PCrash "Scalars::get_value: unreachable (scalar and iterator with one name)"
+  | inl (Some _), Some _ => PErr (EUncatch (UIterableShadowing name))     (* since the fix: was unreachable!() *)
   end.
 
 Definition scalars_variable_could_be_set (x : ctx) (name : string) : bool :=
@@ -736,7 +736,7 @@ Definition handle_prev_state (x : ctx) (met : call_result cid) (pos : N) (src : 
       match resolve_service_info x fc with
       | POk si =>
           match arg_hash with
-          | None => (XCrash "argument_hash.unwrap() on a Failed state with unresolved arguments", dummy)
+          | None => (XErr (EUncatch (UInstructionParametersMismatch "call argument_hash")) x, dummy)   (* since the fix *)
           | Some ah =>
               match verify_call ah t (si_arg_hash si) (si_tetraplet si) with
               | POk _ =>
@@ -767,7 +767,7 @@ Definition handle_prev_state (x : ctx) (met : call_result cid) (pos : N) (src : 
         match results_take (x_call_results x) call_id with
         | (Some ans, rest) =>
             match arg_hash with
-            | None => (XCrash "argument_hash.expect(Result for joinable error)", dummy)
+            | None => (XErr (EUncatch (UInstructionParametersMismatch "call argument_hash")) x, dummy)   (* since the fix *)
             | Some ah =>
                 let x1 := set_calls x (x_lcid x) rest (x_requests x) in
                 (update_state_with_service_result x1 t ah out ans, SD false None)
@@ -781,7 +781,7 @@ Definition handle_prev_state (x : ctx) (met : call_result cid) (pos : N) (src : 
       else (XOk (make_incomplete x), SD false (Some met))
   | Executed v =>
       match arg_hash with
-      | None => (XCrash "argument_hash.as_ref().unwrap() on an Executed state with unresolved arguments", dummy)
+      | None => (XErr (EUncatch (UInstructionParametersMismatch "call argument_hash")) x, dummy)       (* since the fix *)
       | Some ah =>
           match populate_from_data x v ah t pos src out with
           | POk x1 =>
